@@ -18,6 +18,7 @@ import numpy as np
 from symx.core import DomainExit, SymBool, SymReal
 from symx.shims import HarnessError
 
+from .common import as_ufunc_global
 from .common import And, Case, Iff, Not, Or, all_exact, call, check_names, dims_catalogue, elements, exact_eq
 
 LEVEL = "other"
@@ -496,7 +497,8 @@ def sym_ufunc(ctx, name, x0, x1, out=None):
     """what np.<name>(x0, x1[, out=]) does after NumPy's override lookup: the first operand with __array_ufunc__ gets the call"""
     disp = x0 if is_unyt(ctx, x0) else x1
     kw = {} if out is None else dict(out=tuple(out) if isinstance(out, (tuple, list)) else (out,))
-    return disp.__array_ufunc__(STANDIN[name], "__call__", x0, x1, **kw)
+    with as_ufunc_global(ctx.mods, STANDIN[name]):
+        return disp.__array_ufunc__(STANDIN[name], "__call__", x0, x1, **kw)
 
 
 FORMS = ["call", "op", "out_q", "out_b", "outer", "at", "reduce_initial", "iop"]
